@@ -68,7 +68,11 @@ AClear ==
   /\ mode' = "fill" /\ held' = {} /\ pos' = 0 /\ len' = 0
   /\ UNCHANGED ac
 
+\* CleanUp, or draining a sorter that has AutoClean set: the sorter is not usable any more.
+ADie == mode' = "dead" /\ UNCHANGED ac      \* nothing is promised about a dead sorter
+
 ANext ==
+  \/ ADie
   \/ \E v \in (held' \ held) : APush(v)
   \/ AFinalise
   \/ \E v \in held : APull(v)
@@ -82,8 +86,8 @@ ASpec == AInit /\ [][ANext]_avars
 (* construction here; the work is showing the implementation refines it).  *)
 (***************************************************************************)
 ATypeOK ==
-  /\ mode \in {"fill", "drain", "eof"}
+  /\ mode \in {"fill", "drain", "eof", "dead"}
   /\ pos \in Nat /\ len \in Nat
   /\ mode = "fill" => pos = len /\ Cardinality(held) = len
-  /\ mode # "fill" => pos + Cardinality(held) = len
+  /\ mode \in {"drain", "eof"} => pos + Cardinality(held) = len
 =============================================================================
